@@ -29,6 +29,87 @@ extern "C" void harness() {
   VASSERT(c.nbNets() == 1 && c.nbRows() == 4 && c.isFixed(2) && !c.isFixed(0), "nets, rows and flags untouched");
   __verif_cover("end");
 }
+#elif defined(H18D)
+// H18D: expandCellsToDensity, numeric claims (linear floating-point error model): movable cells of MIXED heights with concrete sizes,
+// symbolic target density.  The movable area afterwards is at most target x available area (beyond a 1e-6 relative slack for the
+// double arithmetic), is within one cell height of it when the per-cell cap is not hit, and no cell got narrower.
+extern "C" void harness() {
+  static const int W[3][3] = {{6, 4, 5}, {3, 7, 2}, {9, 1, 4}};
+  static const int H[3][3] = {{10, 20, 10}, {20, 10, 10}, {10, 10, 30}};
+  int shape = __verif_choice(3);
+  int capped = __verif_choice(2);
+  Circuit c(4);    // cells 0..2 movable with mixed heights, 3 fixed
+  c.setCellWidth({W[shape][0], W[shape][1], W[shape][2], 8}); c.setCellHeight({H[shape][0], H[shape][1], H[shape][2], 20});
+  c.setCellX({3, 20, 40, -50}); c.setCellY({0, 10, 0, -50});
+  c.setCellIsFixed({false, false, false, true});
+  c.setupRows(Rectangle(0, 100, 0, 40), 10);
+  const double rowArea = 4000.0;
+  long long cellArea = 0; int hmax = 0;
+  for (int i = 0; i < 3; ++i) { cellArea += (long long)W[shape][i] * H[shape][i]; if (H[shape][i] > hmax) hmax = H[shape][i]; }
+  double density = cellArea / rowArea;
+  double target = __verif_nondet_double(0.0, 1.0);
+  __verif_assume(target >= density * 1.001 && target <= 0.95);     // stated bound: the target is above the current density by at least 0.1 %
+  double cap = capped ? 0.12 : 1.0;                                // maximum width 12 (hit by the wider cells for large targets) or 100 (never hit)
+  c.expandCellsToDensity(target, 0.0, cap);
+  long long after = 0;
+  for (int i = 0; i < 3; ++i) {
+    int nw = c.cellWidth()[i];
+    if (cap * 100.0 >= W[shape][i]) VASSERT(nw >= W[shape][i], "no movable cell gets narrower when the cap is not below its width");
+    after += (long long)nw * H[shape][i];
+    __verif_observe(nw);
+  }
+  double goal = target * rowArea;
+  VASSERT((double)after <= goal * 1.000001, "utilisation does not exceed the target beyond rounding");
+  bool capHit = false;
+  for (int i = 0; i < 3; ++i) if (W[shape][i] * (target / density) > cap * 100.0 - 0.001) capHit = true;
+  if (!capHit) VASSERT((double)after >= goal * 0.999999 - hmax, "the movable area is within one cell height of target times available area when the cap is not hit");
+  VASSERT(c.cellWidth()[3] == 8, "fixed cells keep their width");
+  __verif_cover("end");
+}
+#elif defined(H18E)
+// H18E: expandCellsByFactor, numeric claims (linear floating-point error model): concrete mixed-height cells and factors, symbolic
+// density cap; plus one wide cell of symbolic width with factor 1 (no cell gets narrower).
+extern "C" void harness() {
+  int wide = __verif_choice(2);
+  if (wide) {
+    Circuit c(2);
+    int w = __verif_nondet_int(1, 1 << 26);
+    c.setCellWidth({w, 8}); c.setCellHeight({10, 10}); c.setCellX({0, -50}); c.setCellY({0, -50}); c.setCellIsFixed({false, true});
+    c.setupRows(Rectangle(0, 1 << 28, 0, 40), 10);
+    float f = __verif_choice(2) ? 1.5f : 1.0f;
+    c.expandCellsByFactor({f, 1.0f}, 0.9, 0.0);
+    VASSERT(c.cellWidth()[0] >= w, "no movable cell gets narrower");
+    __verif_cover("end");
+    return;
+  }
+  static const int W[2][3] = {{6, 4, 5}, {3, 7, 2}};
+  static const int H[2][3] = {{10, 20, 10}, {20, 10, 10}};
+  int shape = __verif_choice(2);
+  Circuit c(4);
+  c.setCellWidth({W[shape][0], W[shape][1], W[shape][2], 8}); c.setCellHeight({H[shape][0], H[shape][1], H[shape][2], 20});
+  c.setCellX({3, 20, 40, -50}); c.setCellY({0, 10, 0, -50});
+  c.setCellIsFixed({false, false, false, true});
+  c.setupRows(Rectangle(0, 100, 0, 40), 10);
+  const double rowArea = 4000.0;
+  int k0 = __verif_choice(3), k1 = __verif_choice(2);
+  float f0 = 1.0f + 0.5f * k0, f1 = 1.0f + 1.5f * k1, f2 = 1.25f;
+  long long cellArea = 0;
+  for (int i = 0; i < 3; ++i) cellArea += (long long)W[shape][i] * H[shape][i];
+  double density = cellArea / rowArea;
+  double cap = __verif_nondet_double(0.0, 1.0);
+  __verif_assume(cap >= density * 1.001 && cap <= 0.95);          // stated bound: the cap is above the current density by at least 0.1 %
+  c.expandCellsByFactor({f0, f1, f2, 1.0f}, cap, 0.0);
+  long long after = 0;
+  for (int i = 0; i < 3; ++i) {
+    int nw = c.cellWidth()[i];
+    VASSERT(nw >= W[shape][i], "no movable cell gets narrower");
+    after += (long long)nw * H[shape][i];
+    __verif_observe(nw);
+  }
+  VASSERT((double)after <= cap * rowArea * 1.000001 + 3.0, "utilisation does not exceed the cap beyond rounding");
+  VASSERT(c.cellWidth()[3] == 8, "fixed cells keep their width");
+  __verif_cover("end");
+}
 #else
 // H18C: computeCellExpansion: 1 for fixed or uncongested cells, otherwise the largest factor among the congested regions met
 extern "C" void harness() {
